@@ -71,10 +71,10 @@ def rules(rep: Report):
              'lines are rewritten only while EOD is None')
     rep.rule('G5', 'when DataReader.recv can abort mid-message with an '
              'SmtpError, the server does not continue the session')
-    rep.rule('G6', 'the size limit is decided from the byte count alone, '
-             'before the piece is interpreted: add_lines(piece) is reached '
-             'only when the limit test failed; the test does not depend on '
-             'parser state')
+    rep.rule('G6', 'every piece appended to the line table was counted into '
+             'self.size first (socket reads and the command buffer alike), '
+             'counting happens only while EOD is None, MessageTooBig depends '
+             'on size / max_size only')
     rep.rule('G7', 'Server.handle never ends (normally or by an '
              'exception) with replies still in the send buffer: after every '
              'command / reply.send an unconditional flush_send lies on '
@@ -263,26 +263,59 @@ def g3(e: Engine, rep: Report, rule: str):
     g = e.build(ctx, raises=lambda b, n, r: set())
     where = ctx.func.qname
     rep.functions.add(where)
-    takes = [n for n in g.nodes if n.kind in ('call', 'call_enter') and any(
-        isinstance(a, ast.Attribute) and a.attr == 'recv_buffer'
-        for a in n.ast.args)]
-    clears = [n for n in g.of_kind('stmt') if isinstance(n.ast, ast.Assign)
-              and any(isinstance(t, ast.Attribute) and
-                      t.attr == 'recv_buffer' for t in n.ast.targets) and
-              isinstance(n.ast.value, ast.Constant) and
-              n.ast.value.value == b'']
+    def pairs(a: ast.Assign):
+        """(target, value) pairs of a (possibly tuple) assignment"""
+        out = []
+        for t in a.targets:
+            if isinstance(t, (ast.Tuple, ast.List)) and isinstance(
+                    a.value, (ast.Tuple, ast.List)) and \
+                    len(t.elts) == len(a.value.elts):
+                out += list(zip(t.elts, a.value.elts))
+            else:
+                out.append((t, a.value))
+        return out
+
+    def is_buf(x):
+        return isinstance(x, ast.Attribute) and x.attr == 'recv_buffer'
+    clears, local_takes = [], {}
+    for n in g.of_kind('stmt'):
+        if not isinstance(n.ast, ast.Assign):
+            continue
+        for t, v in pairs(n.ast):
+            if is_buf(t) and isinstance(v, ast.Constant) and v.value == b'':
+                clears.append(n)
+            if isinstance(t, ast.Name) and is_buf(v):
+                local_takes[t.id] = n
+    # the call that interprets the buffered bytes, and where its argument
+    # was read from the buffer
+    uses = []
+    for n in g.nodes:
+        if n.kind not in ('call', 'call_enter') or not n.ast.args:
+            continue
+        a = n.ast.args[0]
+        if is_buf(a):
+            uses.append((n, n))
+        elif isinstance(a, ast.Name) and a.id in local_takes:
+            uses.append((n, local_takes[a.id]))
+    may_before = dataflow.may_events_before(
+        g, lambda n: ['clear'] if n in clears else [])
     after = dataflow.must_events_after(
         g, lambda n: ['clear'] if n in clears else [], edge=c07.no_call_exc)
     rep.evaluations += 1
-    ok = bool(takes) and all(
-        isinstance(after.get(t.id), dataflow.Top) or
-        'clear' in (after.get(t.id) or ()) for t in takes)
+    ok = bool(uses) and bool(clears)
+    for use, take in uses:
+        # read before any clear; the clear follows the read on every path
+        # (it may be the very statement that reads: a, buf = buf, b'')
+        ok = ok and 'clear' not in (may_before.get(take.id) or ()) and (
+            take in clears or isinstance(after.get(take.id), dataflow.Top)
+            or 'clear' in (after.get(take.id) or ()))
     rep.check(ok, rule, where, 'takes the whole buffer, then empties it',
               'from_recv_buffer does not take the complete recv_buffer and '
               'clear it afterwards: buffered bytes are processed twice (as '
               'content and again as commands) or not at all',
-              reason='add_lines(io.recv_buffer) then io.recv_buffer = '
-              "b''", loc=ctx.func.loc())
+              reason='the bytes handed to add_lines were read from '
+              "io.recv_buffer before it is set to b'' on every path",
+              loc=ctx.func.loc())
     # return_all: slices around EOD
     ctx = e.method_ctx(READER, 'return_all')
     where = ctx.func.qname
@@ -519,46 +552,121 @@ def g5(e: Engine, rep: Report, rule: str):
 
 # ---------------------------------------------------------------------- G6
 def g6(e: Engine, rep: Report, rule: str):
-    ctx = e.method_ctx(READER, 'recv_piece')
-    g = e.build(ctx, raises=lambda b, n, r: set())
-    fx = e.facts(g)
-    where = ctx.func.qname
-    rep.functions.add(where)
-    raises = [n for n in g.of_kind('stmt') if isinstance(n.ast, ast.Raise)
-              and any(isinstance(l, tuple) and l[1].endswith(
-                  'MessageTooBig') for l, s in n.succ)]
-    adds = [n for n in g.calls() if e.call_name(n) == 'add_lines']
-    if not raises:
-        rep.ok(rule, where, 'no size limit in the reader',
+    """The size limit is about the message, not about reads: every piece of
+    bytes that enters the line table is counted first (whatever its source:
+    socket read or command buffer), counting stops at the end-of-data line,
+    and the limit is tested where the count changes."""
+    c = e.p.cls(READER)
+    # methods that count their parameter into self.size
+    counters = {}
+    for mname, m in c.methods.items():
+        for n in walk_own(m.node):
+            if isinstance(n, ast.AugAssign) and isinstance(n.op, ast.Add) \
+                    and ast.unparse(n.target) == 'self.size' and \
+                    isinstance(n.value, ast.Call) and \
+                    ast.unparse(n.value.func) == 'len' and n.value.args and \
+                    isinstance(n.value.args[0], ast.Name) and \
+                    n.value.args[0].id in m.params[1:]:
+                counters[mname] = (m, n, n.value.args[0].id)
+    raisers = [m for m in c.methods.values() if any(
+        isinstance(n, ast.Raise) and 'MessageTooBig' in ast.unparse(n)
+        for n in walk_own(m.node))]
+    if not raisers:
+        rep.ok(rule, READER, 'no size limit in the reader',
                reason='MessageTooBig is never raised', nontrivial=False)
         return
-    if not adds:
-        rep.error('anchor vanished: add_lines in recv_piece')
-        return
-    limit_alts = [(False, 'self.max_size'),
-                  (True, 'self.size <= self.max_size')]
-    for n in adds:
-        rep.evaluations += 1
-        w = common.unguarded_path(e, g, n, limit_alts)
-        rep.check(w is None, rule, where,
-                  'a piece is interpreted only after it passed the size '
-                  'limit', 'add_lines(piece) can run before / without the '
-                  'size test: whether an over-size message is refused then '
-                  'depends on where the stream was cut (e.g. on whether the '
-                  'excess arrives together with the end-of-data line)',
-                  loc=n.loc(), reason='dominated by the failed limit test',
-                  witness=dataflow.render_path(w) if w else None)
-    for n in raises:
-        rep.evaluations += 1
-        st = fx.at(n) or frozenset()
-        dep = [k for p, k in st if 'EOD' in k or '.lines' in k or
-               'self.i ' in k]
-        rep.check(not dep, rule, where,
-                  'the limit does not depend on parser state',
-                  'MessageTooBig is raised only under %s: the decision '
-                  'depends on what the parser has seen so far, i.e. on the '
-                  'segmentation' % dep, loc=n.loc(),
-                  reason='guarded by size / max_size only')
+    # (a) every append to the line table is preceded by counting the same
+    #     bytes
+    n_app = 0
+    for mname, m in sorted(c.methods.items()):
+        if mname == '_append_line':
+            continue
+        ctx = Ctx(m, READER)
+        g = e.build(ctx, raises=lambda b, n, r: set())
+        apps = [n for n in g.calls() if e.call_name(n) == '_append_line'
+                and n.ast.args]
+        if not apps:
+            continue
+        where = m.qname
+        rep.functions.add(where)
+
+        def counted(n):
+            if n.kind in ('call', 'call_enter') and \
+                    e.call_name(n) in counters and n.ast.args:
+                return ['cnt:' + ast.unparse(n.ast.args[0])]
+            if n.kind == 'stmt' and isinstance(n.ast, ast.AugAssign) and \
+                    ast.unparse(n.ast.target) == 'self.size' and \
+                    isinstance(n.ast.value, ast.Call) and \
+                    ast.unparse(n.ast.value.func) == 'len' and \
+                    n.ast.value.args:
+                return ['cnt:' + ast.unparse(n.ast.value.args[0])]
+            return []
+
+        def kill(n):
+            # a new loop iteration / re-binding makes the expression denote
+            # other bytes
+            if n.kind == 'iter':
+                return ['*']
+            return []
+        before = {}
+        st0 = dataflow.forward(
+            g, frozenset(),
+            lambda n, st: (frozenset() if n.kind == 'iter' else st)
+            | frozenset(counted(n)),
+            lambda a, b: a & b)
+        for a in apps:
+            n_app += 1
+            rep.evaluations += 1
+            arg = ast.unparse(a.ast.args[0])
+            rep.check(('cnt:' + arg) in (st0.get(a.id) or ()), rule, where,
+                      'bytes `%s` are counted before they enter the '
+                      'message' % arg,
+                      '`%s` is appended to the line table without having '
+                      'been counted towards the size limit on every path: '
+                      'whether an over-size message is refused depends on '
+                      'which bytes took this route, i.e. on how the stream '
+                      'was cut (pipelined with DATA or not)' % arg,
+                      loc=a.loc(), reason='self.size += len(%s) on every '
+                      'path before, in the same iteration' % arg)
+    if n_app < 2:
+        rep.error('anchor vanished: _append_line sites (%d < 2)' % n_app)
+    # (b) counting and the limit test: only message bytes count, and the
+    #     decision depends on size / max_size (and "still before EOD") only
+    for mname, (m, aug, prm) in sorted(counters.items()):
+        ctx = Ctx(m, READER)
+        g = e.build(ctx, raises=lambda b, n, r: set())
+        fx = e.facts(g)
+        where = m.qname
+        rep.functions.add(where)
+        for n in g.of_kind('stmt'):
+            if n.ast is aug:
+                rep.evaluations += 1
+                st = fx.at(n) or frozenset()
+                rep.check((True, 'self.EOD is None') in st, rule, where,
+                          'only bytes before the end-of-data line count',
+                          'bytes are counted towards the limit although '
+                          'the end-of-data line may already have been seen: '
+                          'pipelined commands after the message are charged '
+                          'to it when they arrive in the same read',
+                          loc=n.loc(), reason='under self.EOD is None')
+            if isinstance(n.ast, ast.Raise) and \
+                    'MessageTooBig' in ast.unparse(n.ast):
+                rep.evaluations += 1
+                st = fx.at(n) or frozenset()
+                dep = sorted(k for p, k in st if not (
+                    'max_size' in k or 'self.size' in k or
+                    k == 'self.EOD is None'))
+                rep.check(not dep, rule, where,
+                          'the limit is decided from the byte count alone',
+                          'MessageTooBig is raised only under %s: the '
+                          'decision depends on more than how many message '
+                          'bytes have arrived' % dep, loc=n.loc(),
+                          reason='guarded by size / max_size only')
+    if not counters:
+        rep.bad(rule, READER, 'bytes are counted where they enter the '
+                'message', 'no method of DataReader counts its argument '
+                'into self.size: the limit cannot be tied to the message '
+                'bytes', loc=c.loc() if hasattr(c, 'loc') else '')
 
 
 # ---------------------------------------------------------------------- G7
